@@ -378,9 +378,94 @@ class LintFileStream(Stream):
         return None if impl_out.startswith("EXC") else impl_out
 
 
+class LintFileMonoStream(LintFileStream):
+    """C13_lint_file_mono on the real tool: for one tree, F a sub-list of F', every line `reuse lint-file F` prints is printed by
+    `reuse lint-file F'`, and the exit status can only go from 0 to 1."""
+    name = "lintfile-mono"
+    rule = ("the same trees; F' drawn as in `lintfile`, F a random sub-list of F'; real `reuse lint-file F` and `reuse lint-file F'` on one "
+            "tree; oracle = lines(F) is a subset of lines(F') per category and exit(F) <= exit(F'); the model is asked both and must "
+            "agree with both; non-trivial = F' prints something F does not")
+
+    def cases(self, tier, rng):
+        n = 0
+        for c in rc.tree_cases(tier, rng):
+            if not rc.dup_free(c):
+                continue
+            n += 1
+            if tier != "thorough" and n % 2:
+                continue
+            c = dict(c)
+            big = selectors(rng, c)
+            c["F2"] = big
+            c["F"] = [s for s in big if rng.random() < 0.5]
+            c["cwd"] = ""
+            yield c
+
+    def _run(self, root, sel):
+        args = []
+        for s in sel:
+            full = os.path.join(root, s["p"])
+            args.append(full if s["form"] == "abs" else ("./" + s["p"] if s["form"] == "dot" else s["p"]))
+        code, out, exc = cli.run_cli(["--no-multiprocessing", "lint-file"] + args, root)
+        if exc is not None:
+            return None, "EXC:lint-file:%s:%s" % (type(exc).__name__, str(exc)[:80])
+        F = parse_lines(root, strip_warning(out))
+        return {"exit": code, "F": {c: F[c] for c in ALLCATS}}, None
+
+    def impl(self, case):
+        with cli.scratch("rv-c13m-") as root:
+            rc.build_tree(root, case)
+            a, err = self._run(root, case["F"])
+            if err:
+                return err
+            b, err = self._run(root, case["F2"])
+            if err:
+                return err
+            return json.dumps({"a": a, "b": b}, sort_keys=True)
+
+    def model_lines(self, case):
+        fields = rc.model_fields(case)
+        return ["lintfile\t%s\t%s\t%s" % (fields[0], enc_list(sorted({s["p"] for s in case[k]})), "\t".join(fields[1:])) for k in ("F", "F2")]
+
+    def model_out(self, case, outs):
+        if outs[0].startswith("error") or outs[1].startswith("error"):
+            return "EXC:RuntimeError"
+        res = {}
+        for k, o in zip(("a", "b"), outs):
+            d, r = parse_model(o, ("F",))
+            res[k] = {"exit": int(d["exit"]), "F": r["F"]}
+        return json.dumps(res, sort_keys=True)
+
+    def agree(self, case, impl_out, model_out):
+        if impl_out.startswith("EXC") or model_out.startswith("EXC"):
+            return impl_out.split(":")[0] == model_out.split(":")[0]
+        i, m = json.loads(impl_out), json.loads(model_out)
+        return all(i[k]["exit"] == m[k]["exit"] and all(sorted(map(tuple, i[k]["F"][c])) == sorted(map(tuple, m[k]["F"].get(c, []))) for c in FCATS)
+                   for k in ("a", "b"))
+
+    def oracle(self, case, impl_out):
+        if impl_out.startswith("EXC"):
+            return "crash: " + impl_out
+        r = json.loads(impl_out)
+        for c in ALLCATS:
+            lost = [x for x in r["a"]["F"][c] if x not in r["b"]["F"][c]]
+            if lost:
+                return "lint-file-not-monotone: %s: %s printed for F=%s but not for the larger F'=%s" % (
+                    c, lost[:3], sorted({s["p"] for s in case["F"]})[:6], sorted({s["p"] for s in case["F2"]})[:8])
+        if r["a"]["exit"] > r["b"]["exit"]:
+            return "lint-file-not-monotone: exit %d for F, %d for the larger F'" % (r["a"]["exit"], r["b"]["exit"])
+        return None
+
+    def nontrivial(self, case, impl_out):
+        if impl_out.startswith("EXC"):
+            return None
+        r = json.loads(impl_out)
+        return impl_out if any(len(r["b"]["F"][c]) > len(r["a"]["F"][c]) for c in FCATS) else None
+
+
 PROPERTY = Property(
     pid="C13",
-    streams=[FormatsStream(), LintFileStream(), LintFileE2EStream()],
+    streams=[FormatsStream(), LintFileStream(), LintFileMonoStream(), LintFileE2EStream()],
     table_roundtrip=rc.table_roundtrip,
     assumptions=[
         "stream lintfile-e2e: the composed model (Model/SpdxE2E.lean) receives the tree itself, the working directory and the FILE arguments "
